@@ -44,6 +44,7 @@ def count_tables(shape_list):
 # ---------------------------------------------------------------- labelings
 
 ASC, DESC, WEIRD, CHAR, SPACE = 'asc', 'desc', 'weird', 'char', 'space'
+EMPTYP, EMPTYO = 'empty-prop', 'empty-obj'
 
 
 def labels(n, m, labeling=ASC):
@@ -70,6 +71,12 @@ def labels(n, m, labeling=ASC):
     if labeling == WEIRD:   # blanks, quotes and non-ASCII inside labels (C20, C10 strings)
         return (tuple(f'o {i}"q' for i in range(n)),
                 tuple(f"p'{j} \u00e4" for j in range(m)))
+    if labeling == EMPTYP:  # the empty string is a label like any other: last property
+        return (tuple(f'o{i:03d}' for i in range(n)),
+                tuple(f'p{j:03d}' for j in range(m - 1)) + ('',))
+    if labeling == EMPTYO:  # ... first object
+        return (('',) + tuple(f'o{i:03d}' for i in range(1, n)),
+                tuple(f'p{j:03d}' for j in range(m)))
     raise ValueError(labeling)
 
 
